@@ -777,7 +777,10 @@ func c04R4(p *core.Program, r *core.Report, fns []*ssa.Function) {
 }
 
 // uncheckedAsserts enumerates x.(T) without comma-ok in fns and discharges each by a guard idiom or the table.
-func uncheckedAsserts(p *core.Program, r *core.Report, fns []*ssa.Function, rule string, allowed map[string]string, what string) {
+// fieldAllowed (optional): invariants that belong to a struct field rather than to the function that reads it, keyed
+// "<owner type>.<field>/(<asserted type>)" — an assertion on a value loaded from that field (or an element of it) is
+// covered wherever it is written, so moving the statement into another function does not lose the listing.
+func uncheckedAsserts(p *core.Program, r *core.Report, fns []*ssa.Function, rule string, allowed map[string]string, what string, fieldAllowed ...map[string]string) {
 	n := 0
 	perFn := map[string]int{}
 	for _, fn := range fns {
@@ -809,10 +812,38 @@ func uncheckedAsserts(p *core.Program, r *core.Report, fns []*ssa.Function, rule
 				r.OK(rule, key, p.Pos(ta.Pos()), "listed: "+reason)
 				return
 			}
+			// generalised: an invariant listed for the field the asserted value is read from
+			if owner, fld := assertedFieldOrigin(ta.X); fld != "" {
+				fk := fmt.Sprintf("%s.%s/(%s)", owner, fld, core.ShortType(ta.AssertedType))
+				for _, fa := range fieldAllowed {
+					if reason, ok := fa[fk]; ok {
+						r.OK(rule, key, p.Pos(ta.Pos()), "listed by field "+fk+": "+reason)
+						return
+					}
+				}
+			}
 			r.Bad(rule, key, p.Pos(ta.Pos()), "unchecked type assertion on "+core.ShortType(ta.X.Type())+" in "+what+": a value of another dynamic type panics")
 		})
 	}
 	r.Count("unchecked_type_assertions_"+rule, n)
+}
+
+// assertedFieldOrigin: v is the value loaded from a struct field, or an element of a slice/array loaded from one
+// (f.fld, f.fld[i], the element variable of `range f.fld`): the owner type and field name, else "", "".
+func assertedFieldOrigin(v ssa.Value) (string, string) {
+	ld, ok := v.(*ssa.UnOp)
+	if !ok || ld.Op != token.MUL {
+		return "", ""
+	}
+	addr := ld.X
+	if ia, ok := addr.(*ssa.IndexAddr); ok {
+		l2, ok := ia.X.(*ssa.UnOp)
+		if !ok || l2.Op != token.MUL {
+			return "", ""
+		}
+		addr = l2.X
+	}
+	return ownerOfFieldAddr(addr)
 }
 
 // typeGuard: the asserted value was tested by a dominating comma-ok assertion / type switch arm to the same type.
